@@ -20,20 +20,36 @@ PKG = "device/acpi/aml"
 NAMES = [[65, 95, 95, 95], [66, 95, 95, 95], [67, 95, 95, 95]]
 ASSUME = [
     "operations are applied only when the API's preconditions hold (append/appendAfter of a detached node that is not an "
-    "ancestor of the new parent, appendAfter next to a child of that parent, detach of a child from its parent, free of a "
-    "childless node); the property quantifies over legal histories",
-    "lookup domain: slot 0 is the live root, the scope is a node of the tree, no scope holds two children with the same name; "
+    "ancestor of the new parent, appendAfter next to a child of that parent, detach of a child from its parent); free is "
+    "called on childless objects and also on objects that still have children, which the API must refuse (panic), leaving the "
+    "object attached or detached.  Calls that break a precondition (append of an attached node, detach of a non-child, use of a "
+    "freed object, double free) have no specified outcome and are not generated",
+    "lookup domain: slot 0 is the live root (absolute paths start there; a pool whose slot 0 was freed or re-parented is not a "
+    "namespace and Find is not called on it); the scope is any live object - a node of the tree or of a detached subtree (its "
+    "top has no enclosing scope) - or InvalidIndex, from which Find merely has to return.  A scope that holds two children of "
+    "one name is allowed: the rules then designate any of them (set-valued FindSpec); the random driver creates such scopes "
+    "with probability 1/10 per clash",
     "expressions are the raw NameString bytes the parser hands to Find: ['\\\\' | '^'*] followed by nothing, name segments joined, "
     "0x2E seg seg, or 0x2F count seg*count.  Too-short names (a 1..3 byte stub after a well-formed start, the empty "
     "expression, or a 0x2E / 0x2F [count] prefix followed by no name at all) must give not-found; any other malformed byte "
-    "string (e.g. a dual/multi prefix followed by fewer or more complete segments than announced) merely has to return",
+    "string (a dual/multi prefix followed by fewer or more complete segments than announced, a prefix after a prefix, stray "
+    "bytes, NUL) merely has to return",
     "a MultiNamePath with SegCount 1 and no prefix may be resolved either as a single segment (upward search) or downward only",
+    "node names are valid NameSegs, all-zero (unnamed objects, possibly carrying the stale name of the slot's previous owner) "
+    "or the root's '\\\\'; names with other bytes cannot be designated by a well-formed expression and are not generated",
+    "sizes: TLC scopes are the closed edit graph for <= 5 slots and all trees of <= 5 nodes (<= 4 with detached subtrees); the "
+    "random leg goes to 300 objects, scopes with ~100 children, chains ~270 deep, paths of 255 (SegCount) / 260+ (joined) "
+    "segments, 260 '^'.  Pools near 2^32 objects are physically infeasible and not covered",
     "which freed slot is reused is the implementation's choice (the monitor checks membership); the LIFO free list is only "
     "the refinement used to generate leg G scripts (a script stops, without verdict, where the real tree picks another slot)",
+    "CreateDefaultScopes is judged as a bulk creation on an empty pool: its result must be a well-formed tree (which names it "
+    "creates is outside the statement); opcode and table handle of created objects are varied but not judged",
     "a parent's child list is observed twice: through the link fields and through the exported enumeration ArgAt/NumArgs; both "
     "must be the same list",
     "trusted Go: the pool projection (link fields -> 1-based arrays), the script runner and the random driver, which picks "
-    "legal operations and lookup targets by reading the real tree; none of them holds an expected result",
+    "legal operations and lookup targets by reading the real tree and issues lookups only while every sibling list and parent "
+    "chain of the real pool ends (Find has no bound of its own; a cyclic pool is rejected at the checkpoint logged just before); "
+    "none of them holds an expected result",
 ]
 
 
@@ -77,6 +93,8 @@ def edge_class(st, act):
         return "aft-last" if slot(act[3])[3] == 0 else "aft-mid"
     c = act[2] if k == "det" else act[4]
     s = slot(c)
+    if k == "free" and s[4] != 0:
+        return "free-nonleaf"
     if k == "free" and s[1] == 0:
         return "free-detached"
     pos = ("only" if s[3] == 0 else "first") if s[2] == 0 else ("last" if s[3] == 0 else "middle")
@@ -84,7 +102,7 @@ def edge_class(st, act):
 
 
 NEEDED = ["new-grow", "new-reuse", "new-reuse-2+", "app-first", "app-nonempty", "aft-last", "aft-mid",
-          "det-only", "det-first", "det-middle", "det-last", "free-detached", "free-only", "free-first", "free-middle", "free-last"]
+          "det-only", "det-first", "det-middle", "det-last", "free-detached", "free-only", "free-first", "free-middle", "free-last", "free-nonleaf"]
 
 
 def op_of(act, i):
@@ -203,7 +221,7 @@ def tree_script(t):
     return {"ops": ops, "st": 1, "findall": 1}
 
 
-def deep_chain_script(depth=70):
+def deep_chain_script(depth=260):
     """Pinned case beyond the TLC scope: a chain of `depth` scopes and multi-name paths of up to `depth` segments
     (SegCount bytes 65..90 and 95 are also name characters)."""
     ops = [{"k": "new", "named": 1, "nm": [92, 0, 0, 0], "r": 1}]
@@ -215,15 +233,20 @@ def deep_chain_script(depth=70):
         ops.append({"k": "app", "p": i + 1, "c": i + 2})
     ops.append({"k": "ck"})
     flat = lambda a, b: [x for nm in names[a:b] for x in nm]
-    for n in (1, 2, 3, 47, 48, 57, 63, 64, 65, 66, 69, depth):
+    for n in (1, 2, 3, 47, 48, 57, 63, 64, 65, 66, 69, 70, 90, 91, 95, 96, 127, 128, 254, 255):
         ops.append({"k": "find", "s": 1, "x": [92, 47, n] + flat(0, n)})
         ops.append({"k": "find", "s": 1, "x": [47, n] + flat(0, n)})
         ops.append({"k": "find", "s": 1, "x": flat(0, n)})
+        ops.append({"k": "find", "s": 0, "x": [92, 47, n] + flat(0, n)})                # from InvalidIndex
         ops.append({"k": "find", "s": 3, "x": [94, 94, 47, n] + flat(0, n)})
         if n + 2 <= depth:
             ops.append({"k": "find", "s": 3, "x": [47, n] + flat(2, n + 2)})
         ops.append({"k": "find", "s": depth + 1, "x": [47, n] + flat(0, n)})           # not below the deepest scope
         ops.append({"k": "find", "s": 1, "x": [92, 47, n] + flat(0, n)[:-2]})          # too short
+    for n in (256, 257, depth):                                                          # beyond one SegCount byte: joined form only
+        ops.append({"k": "find", "s": 1, "x": flat(0, n)})
+        ops.append({"k": "find", "s": 1, "x": [92] + flat(0, n)})
+        ops.append({"k": "find", "s": 4, "x": [94, 94, 94] + flat(0, n)})
     for s in (1, 2, depth + 1):
         ops.append({"k": "find", "s": s, "x": [94] * depth})
         ops.append({"k": "find", "s": s, "x": [94] * (depth + 1)})
@@ -244,6 +267,8 @@ def events_to_script(events):
             ops.append({"k": k, "p": e["p"], "c": e["c"], "a": e["a"]})
         elif k == "free":
             ops.append({"k": k, "o": e["o"]})
+        elif k == "bulk":
+            ops.append({"k": "bulk"})
         elif k == "ck":
             ops.append({"k": "ck"})
         elif k == "find":
@@ -326,7 +351,8 @@ def run(ctx):
     exprsf = os.path.join(ctx.work, "exprs.ndjson")
 
     # ---- leg M (the runs are independent: start them together)
-    edit_bugs = ["AfterNoPrevFix"] if q else ["AfterNoPrevFix", "AppendNoPrev", "DetachKeepsLast", "DetachNoPrevNext", "FreeNoDetach", "GrowWithFreeList"]
+    edit_bugs = ["AfterNoPrevFix"] if q else ["AfterNoPrevFix", "AppendNoPrev", "DetachKeepsLast", "DetachNoPrevNext", "FreeNoDetach",
+                                              "GrowWithFreeList", "FreeNonLeafProceeds"]
     find_bugs = ["SingleNoUpward"] if q else ["CaretGrandparent", "SingleNoUpward", "MultiUpward", "SegCountAsName", "HdrNoLengthGuard"]
     jobs = [
         lambda: ctx.model_check(d, "MCObjTree", "MCObjTreeEdit" + tier, workers=1, env={"GRAPH": graph}, timeout=1500,
@@ -334,12 +360,17 @@ def run(ctx):
         lambda: ctx.model_check(d, "MCObjTree", "MCObjTreeFind" + tier, workers=4 if q else 16, timeout=1500, name="M-find"),
         lambda: ctx.model_check(d, "MCObjTree", "MCObjTreeTrees" + tier, workers=1, env={"TREES": trees, "EXPRS": exprsf},
                                 timeout=600, name="emit-trees"),
-    ] + [(lambda b=b: ctx.expect_model_violation(d, "MCObjTree", "MCObjTreeBug_" + b, workers=2, timeout=600)) for b in edit_bugs + find_bugs]
+        lambda: ctx.model_check(d, "MCObjTree", "MCObjTreeFindDet" + tier, workers=4 if q else 16, timeout=1500, name="M-find-detached"),
+    ] + ([] if q else [
+        lambda: ctx.model_check(d, "MCObjTree", "MCObjTreeTreesDetFull", workers=1, env={"TREES": trees + ".det", "EXPRS": exprsf + ".det"},
+                                timeout=600, name="emit-trees-detached")]) + [(lambda b=b: ctx.expect_model_violation(d, "MCObjTree", "MCObjTreeBug_" + b, workers=2, timeout=600)) for b in edit_bugs + find_bugs]
     cap = vlib.maxpar() if hasattr(vlib, "maxpar") else vlib.NCPU
     with concurrent.futures.ThreadPoolExecutor(max_workers=max(1, min(4 if q else 3, cap // 2 if cap < 8 else cap))) as ex:
         res = [f.result() for f in [ex.submit(j) for j in jobs]]
-    ctx.cov["states"] -= ctx.cov["legs"]["emit-trees"]["distinct"]          # the emission run only enumerates Init
-    ctx.cov["transitions"] -= ctx.cov["legs"]["emit-trees"]["generated"]
+    for leg in ("emit-trees", "emit-trees-detached"):                       # the emission runs only enumerate Init
+        if leg in ctx.cov["legs"]:
+            ctx.cov["states"] -= ctx.cov["legs"][leg]["distinct"]
+            ctx.cov["transitions"] -= ctx.cov["legs"][leg]["generated"]
     if not q and res[0].coverage_zero:
         raise vlib.Broken("ObjTree edit model: actions never taken in the scope (vacuous bound): %s" % res[0].coverage_zero)
 
@@ -361,13 +392,19 @@ def run(ctx):
     gs = os.path.join(ctx.work, "g_scripts.ndjson")
     with open(exprsf) as f:
         exprs = json.loads(json.loads(f.readline()))
-    with open(trees) as f:
-        alltrees = [json.loads(json.loads(l)) for l in f if l.strip()]
+    alltrees, seen = [], set()
+    for tp in (trees, trees + ".det"):
+        if os.path.exists(tp):
+            with open(tp) as f:
+                for l in f:
+                    if l.strip() and l not in seen:
+                        seen.add(l)
+                        alltrees.append(json.loads(json.loads(l)))
     use = alltrees
     if q:
         rnd = random.Random(ctx.seed)
         big = [t for t in alltrees if len(t["par"]) >= 3]
-        use = rnd.sample(big, min(10, len(big)))
+        use = rnd.sample(big, min(8, len(big)))
     ctx.cov["legs"]["G-find-cases"] = {"trees_enumerated": len(alltrees), "trees_replayed": len(use), "expressions": len(exprs)}
     with open(gs, "w") as f:
         for s in scripts:
@@ -381,7 +418,7 @@ def run(ctx):
     # both harness entry points in one `go test` run (one build)
     run_go(ctx, "TestVerifC13(Scripts|Random)$",
            {"C13_SCRIPTS": gs, "C13_TRACE": trg, "C13_TRACE_T": trt,
-            "C13_NTREES": 8 if q else 96, "C13_NLOOKUPS": 1000 if q else 10000, "C13_MAXOBJ": 300}, 1200)
+            "C13_NTREES": 5 if q else 60, "C13_NLOOKUPS": 700 if q else 10000, "C13_MAXOBJ": 300}, 1200)
 
     # ---- leg V
     account(ctx, "G", trg)
@@ -398,10 +435,10 @@ def run(ctx):
         validate(ctx, "V-G", trg, 1500)
         validate(ctx, "V-T", trt, 1500)
     ctx.cov["exhaustive"] = (not q) and ncov == len(edges) and not ctx.violations
-    ctx.cov["explanation"] = ("the edit graph is closed (every state reachable with <= %d pool slots, all its transitions): the tour "
+    ctx.cov["explanation"] = ("the edit graph (incl. refused frees of objects with children) is closed (every state reachable with <= %d pool slots, all its transitions): the tour "
                               "executes every transition, i.e. every legal operation sequence of any length stays inside states and "
-                              "steps that were replayed on the real ObjectTree; exhaustive = additionally every (tree <= 5 nodes, scope, "
-                              "small-scope expression) lookup was executed and judged (thorough tier); the quick tier replays all "
+                              "steps that were replayed on the real ObjectTree; exhaustive = additionally every (tree <= 5 nodes with duplicate "
+                              "names allowed / <= 4 nodes with detached subtrees, every live scope and InvalidIndex, small-scope expression) lookup was executed and judged (thorough tier); the quick tier replays all "
                               "transitions of the 4-slot graph and a seeded sample of the enumerated trees" % (4 if q else 5))
 
 
